@@ -34,6 +34,7 @@ type EntryCfg struct {
 	Func  string `json:"func"`  // harness entry function
 	Quick    *TierCfg `json:"quick"`
 	Thorough *TierCfg `json:"thorough"`
+	Only     string   `json:"only"` // restrict the entry to one tier
 }
 
 type PropCfg struct {
@@ -275,6 +276,9 @@ func runProperty(prop, tier string) int {
 	var entriesRun []string
 	for _, e := range pc.Entries {
 		if *flagEntry != "" && e.Func != *flagEntry {
+			continue
+		}
+		if e.Only != "" && e.Only != tier {
 			continue
 		}
 		fn := ld.findFunc(modulePath(e.Pkg) + "." + e.Func)
